@@ -12,7 +12,7 @@
     server keeps for block-listed addresses ([live m]: [m] is not all-zero).
     Reservations may carry 6-, 8- or 20-byte addresses. *)
 From Coq Require Import List ZArith NArith Permutation.
-From AGH Require Import Base.Run Model.Dhcp4 Proofs.Dhcp4 Proofs.Dhcp4Names Proofs.Dhcp4Disk.
+From AGH Require Import Base.Run Model.Dhcp4 Proofs.Dhcp4 Proofs.Dhcp4Names Proofs.Dhcp4Disk Proofs.Dhcp4Alloc.
 Import ListNotations.
 Local Open Scope N_scope.
 
@@ -147,6 +147,15 @@ Theorem C10_messages_keep_statics : forall c s now busy o,
   statics (leases (fst (step c s now busy o))) = statics (leases s).
 Proof. exact message_keeps_statics. Qed.
 Print Assumptions C10_messages_keep_statics.
+
+(** The allocateLease loop of the model (reserve, probe, block-list, again)
+    is bounded by the free pool offsets plus the expired leases: no operation
+    ever ends in the model's "out of fuel" answer, whatever the state, the
+    clock and the probe answers (lease times are unsigned in the code). *)
+Theorem C10_allocate_terminates : forall c s now busy o,
+  (0 <= c_lease c)%Z -> snd (step c s now busy o) <> RFuel.
+Proof. exact step_never_fuel. Qed.
+Print Assumptions C10_allocate_terminates.
 
 (** The configurations the server runs with are the ones Validate accepts
     (start < end, gateway outside the pool, both ends inside the subnet: the
